@@ -37,7 +37,7 @@ Qed.
 
 Lemma tab_at_lookup : forall t i, tab_at t i = HOk (tab_lookup t i).
 Proof.
-  intros t i. unfold tab_at, tab_lookup.
+  intros t i. unfold tab_at, tab_at_gen, h2_hpack_at_u64cmp, tab_lookup.
   destruct (i =? 0) eqn:E0; [reflexivity|].
   destruct (i <=? static_len) eqn:E1.
   - destruct (index_at_nth hpack_static_table (i - 1)) as [x [Hx Hi]].
